@@ -479,6 +479,14 @@ def noraise (catches : List String) (mroOf : String → List String) (r : Except
   | .ok _ => .ok none
   | .error e => if catches.any (isInstance (mroOf e)) then .ok (some e) else .error e
 
+/-- `chunkstore_s3._raise_for_status`: the exception class for an HTTP status (`none` = no error) -/
+def httpStatusError (status : Nat) (ignored : List Nat) : Option String :=
+  if 400 ≤ status ∧ status < 600 ∧ !ignored.contains status then
+    if status = 401 ∨ status = 403 then some "katdal.chunkstore_s3.AuthorisationFailed"
+    else if status = 404 then some "katdal.chunkstore_s3.S3ObjectNotFound"
+    else some "katdal.chunkstore.StoreUnavailable"
+  else none
+
 /-! ## 9. NpyFileChunkStore.put_chunk as file-system operations (chunkstore_npy.py:30-47, 114-122) -/
 
 inductive FsOp (P : Type)
